@@ -47,21 +47,21 @@ Inductive hcase :=
     observed: kind, name, proto count, first proto, bytes pulled from the
     connection by HelloInfo, sizes of the chunks the Reads returned, how the
     Reads ended (0 list exhausted, 1 io.EOF) *)
-| HSniff (input : bytes) (sched reads : list N)
+| HSniff (input : bytes) (sched reads : list N) (late : bool)
          (kind : N) (name : bytes) (nproto : N) (first : bytes)
          (pulled : N) (chunks : list N) (ended : N)
 (** the same for a synthetic hello: the spec the harness built it from, the
     extra bytes in the record, the record bytes the harness produced, whether
     the harness meant it to be well-formed, and the length of the stream tail *)
 | HSynth (h : hello_spec) (extra record : bytes) (wf : bool) (tail : N)
-         (sched reads : list N)
+         (sched reads : list N) (late : bool)
          (kind : N) (name : bytes) (nproto : N) (first : bytes)
          (pulled : N) (chunks : list N) (ended : N).
 
-Definition check_sniff (input : bytes) (sched reads : list N)
+Definition check_sniff (input : bytes) (sched reads : list N) (late : bool)
   (kind : N) (name : bytes) (nproto : N) (first : bytes)
   (pulled : N) (chunks : list N) (ended : N) : bool :=
-  match sniff gen_hello_buf_size (br_new (mkConn input sched)) with
+  match sniff gen_hello_buf_size (br_new (mkConn input sched late)) with
   | Ok (r, b1) =>
       (kind_of r =? kind) &&
       match r with
@@ -80,17 +80,17 @@ Definition check_sniff (input : bytes) (sched reads : list N)
     agrees on well-formedness. *)
 Definition check_build (c : hcase) : bool :=
   match c with
-  | HSynth h extra record wf _ _ _ _ _ _ _ _ _ _ =>
+  | HSynth h extra record wf _ _ _ _ _ _ _ _ _ _ _ =>
       bytes_eqb (build_hello h extra) record && Bool.eqb (wf_hellob h) wf
   | _ => true
   end.
 
 Definition check_case (c : hcase) : bool :=
   match c with
-  | HSniff input sched reads kind name nproto first pulled chunks ended =>
-      check_sniff input sched reads kind name nproto first pulled chunks ended
-  | HSynth h extra record wf tail sched reads kind name nproto first pulled chunks ended =>
-      check_sniff (record ++ rep 0 tail) sched reads kind name nproto first pulled chunks ended
+  | HSniff input sched reads late kind name nproto first pulled chunks ended =>
+      check_sniff input sched reads late kind name nproto first pulled chunks ended
+  | HSynth h extra record wf tail sched reads late kind name nproto first pulled chunks ended =>
+      check_sniff (record ++ rep 0 tail) sched reads late kind name nproto first pulled chunks ended
   end.
 
 Fixpoint mismatches_from (f : hcase -> bool) (i : nat) (cs : list hcase) : list nat :=
